@@ -253,6 +253,7 @@ Proof.
     [apply la_fail_nil|].
   destruct (match sec_group (g_sec g) with Some u => negb (node_gid n =? u) | None => false end) eqn:R3;
     [apply la_fail_nil|].
+  destruct (perm_refusal (g_sec g) t path n) as [pe|] eqn:R4; [apply la_fail_nil|].
   cbn [negb andb] in SO.
   assert (OK1 : forall pre, opened_ok t (g_sec g) pre = true ->
                  opened_ok t (g_sec g) (pre ++ [EvOpen path]) = true).
@@ -370,16 +371,34 @@ Proof.
 Qed.
 
 (* ---- A3 ---- *)
+(* a file that satisfies owner, group and symlink rules but not the permission requirement is refused with the
+   permission code (or file-not-found when its directory cannot be examined), before callback and open *)
+Theorem gate_perm_refuses : forall t g cb o path dl cm n e,
+  fs_lstat t path = Some n -> sec_ok (g_sec g) n = true -> perm_refusal (g_sec g) t path n = Some e ->
+  go_res (gate t g cb o path dl cm) = inl e /\ go_events (gate t g cb o path dl cm) = [].
+Proof.
+  intros t g cb o path dl cm n e L SO PR.
+  rewrite la_sec_ok_tests in SO.
+  unfold gate. rewrite L, PR.
+  destruct (sec_nolinks (g_sec g) && is_link n); [discriminate SO|].
+  destruct (match sec_owner (g_sec g) with Some u => negb (node_uid n =? u) | None => false end);
+    [discriminate SO|].
+  destruct (match sec_group (g_sec g) with Some u => negb (node_gid n =? u) | None => false end);
+    [discriminate SO|].
+  split; reflexivity.
+Qed.
+
 Theorem gate_unaffected : forall t g cb o path dl cm n,
-  fs_lstat t path = Some n -> sec_ok (g_sec g) n = true ->
+  fs_lstat t path = Some n -> sec_ok (g_sec g) n = true -> perm_refusal (g_sec g) t path n = None ->
   go_res (gate t g cb o path dl cm) =
   go_res (gate t (mkG sec_none (g_conf_dirs g) (g_errfile g) (g_errline g)) cb o path dl cm) /\
   go_events (gate t g cb o path dl cm) =
   go_events (gate t (mkG sec_none (g_conf_dirs g) (g_errfile g) (g_errline g)) cb o path dl cm).
 Proof.
-  intros t g cb o path dl cm n L SO.
+  intros t g cb o path dl cm n L SO PR.
   rewrite la_sec_ok_tests in SO.
-  unfold gate. rewrite L.
+  unfold gate. rewrite L, PR.
+  replace (perm_refusal (g_sec (mkG sec_none (g_conf_dirs g) (g_errfile g) (g_errline g))) t path n) with (@None econf_err) by reflexivity.
   cbn [g_sec g_errfile g_errline sec_none sec_nolinks sec_owner sec_group andb].
   destruct (sec_nolinks (g_sec g) && is_link n); [discriminate SO|].
   destruct (match sec_owner (g_sec g) with Some u => negb (node_uid n =? u) | None => false end);
